@@ -32,6 +32,8 @@ func (x *Exec) initialState(fn *ssa.Function) (*State, []Value) {
 			x.inputs = append(x.inputs, NamedTerm{Name: p.Name() + lf.Path, T: v.L[k]})
 		}
 		if sl, ok := p.Type().Underlying().(*types.Slice); ok && x.Opt.ModelElems {
+			// falsifier only: look for counterexamples with short slices (they must be rebuilt as Go literals)
+			x.assume(st, c.BVCmp("bvsle", v.L[2], c.BVI(64, 64)))
 			// name the first elements so that a counterexample can be rebuilt as a Go literal
 			if el := LayoutOf(sl.Elem()); len(el.Leaves) == 1 && el.Leaves[0].Role == "" && el.Leaves[0].Sort.Kind != SUninterp {
 				arr := c.Select(x.comp(st, sliceComp(sl.Elem(), 0), el.Leaves[0].Sort), v.L[0])
